@@ -50,7 +50,7 @@ def run_history(spec, perturb=None, hooks=None):
     import torch
     import qucumber
     from qucumber.nn_states import ComplexWaveFunction, DensityMatrix, PositiveWaveFunction
-    from qucumber.observables import NeighbourInteraction, SigmaX, SigmaZ
+    from qucumber.observables import SWAP, NeighbourInteraction, SigmaX, SigmaY, SigmaZ
     from qucumber.utils import training_statistics as ts
     from qucumber.utils import unitaries
 
@@ -118,10 +118,11 @@ def run_history(spec, perturb=None, hooks=None):
             d = digest(last_samples)
         elif op == "statistics":
             r = (2 * SigmaZ() + SigmaX()).statistics(st, num_samples=20, num_chains=6, burn_in=3, steps=1)
-            d = digest({k: float(v) for k, v in r.items()})
+            r2 = SWAP([0]).statistics(st, num_samples=12, num_chains=4, burn_in=1, steps=1)
+            d = digest([{k: float(v) for k, v in r.items()}, {k: float(v) for k, v in r2.items()}])
         elif op == "apply":
             s = last_samples if last_samples is not None else torch.tensor(V[:4], dtype=torch.double)
-            d = digest([SigmaX().apply(st, s), NeighbourInteraction(c=1).apply(st, s)])
+            d = digest([SigmaX().apply(st, s), NeighbourInteraction(c=1).apply(st, s), SWAP([0, nv - 1]).apply(st, s), SigmaY().apply(st, s)])
         elif op == "psi":
             sp = st.generate_hilbert_space()
             d = digest([st.probability(sp), st.normalization(sp)])
